@@ -118,6 +118,17 @@ def handleStore (op : String) (j : Json) : Except String Json := do
     match b2List respond fuel with
     | some l => pure (Json.mkObj [("names", Json.arr (l.map jstr).toArray), ("requests", jnat (b2Requests respond fuel none))])
     | none => pure (Json.mkObj [("fuel", Json.bool true)])
+  | "store.upload_states" =>
+    -- the file table after each of the file-system steps of one upload (k = 0 … 4), after a prior history
+    let root ← getName j "root"
+    let ops ← (← getArr j "ops").toList.mapM parseOp
+    let (fs, _) := runWith (LocalFS.step root) (fun _ _ => 0) LocalFS.FS.empty ops
+    let n ← getName j "name"
+    let d ← getBytes j "data"
+    let rnd ← getName j "rnd"
+    let states := (List.range 5).map (fun k =>
+      mapJson ((LocalFS.uploadState fs (splitSlash n) rnd d k).files.map (fun (p, x) => (String.ofList (joinSlash p), x))))
+    pure (Json.mkObj [("states", Json.arr states.toArray)])
   | "store.addr" =>
     let n ← getName j "name"
     pure (Json.mkObj [("s3dot", Json.bool (hasDotSegment n)),
